@@ -172,8 +172,24 @@ def run(ck):
                         if cls != "PositiveWaveFunction":
                             zs = argp(env, 6)
                             mask = T.app("all", T.app("cmp_Eq", T.sym("input_bases"), T.sym("lit:'Z'")), (-1,))
-                            ck.check(isinstance(zs, VTens) and zs.term == T.app("index", T.sym("data"), (("adv", mask),)), "C07.R4", inst + ":z_samples = all-Z rows of the data", fsite,
-                                     "the reference-basis pool is %r; expected the rows of the data whose basis is all Z" % (getattr(zs, "term", None),))
+                            zt = zs.term if isinstance(zs, VTens) else None
+                            okz = None
+                            why = "the reference-basis pool is %r; expected the rows of the data whose basis is all Z" % (zt,)
+                            if zt is not None and zt == T.app("index", T.sym("data"), (("adv", mask),)):
+                                okz = True
+                            elif zt is not None:
+                                za = zt.single_atom()
+                                if za is not None and isinstance(za, T.App) and za.op == "index" and za.args[0] == T.sym("data") and za.args[1] and isinstance(za.args[1][0], (tuple, list)) and za.args[1][0][0] == "adv":
+                                    tab = row_mask_table(za.args[1][0][1], arr="input_bases", nsites=3)
+                                    if tab is not None:
+                                        bad = [row for row, keep in sorted(tab.items(), reverse=True) if keep != all(row)]
+                                        okz = not bad
+                                        if bad:
+                                            why = "a training row measured in '%s' is %s the pool the negative chains start from; the pool must hold exactly the rows whose every site is Z" % (
+                                                " ".join("Z" if z else "X" for z in bad[0]), "put into" if tab[bad[0]] else "left out of")
+                                elif za is None or "data" not in zt.syms():
+                                    okz = False
+                            ck.check(okz, "C07.R4", inst + ":z_samples = all-Z rows of the data", fsite, why)
                             ib = argp(env, 5)
                             ck.check(isinstance(ib, VTens) and ib.term == T.sym("input_bases"), "C07.R1", inst + ":bases forwarded", fsite, "the bases handed to the shuffler are not the caller's input_bases")
     ck.require_min("C07.R1", 6)
